@@ -24,7 +24,9 @@ IsAct == EvC(Ev) = CNext /\ EvO(Ev) = ONext
 A == EvAct(Ev)
 
 C13Clauses ==
-  IF ~IsAct THEN {}
+  IF ~IsAct
+    THEN (* an adjoint pass that stops (exception / StopIteration) has not recomputed its blocks at all *)
+         (IF EvC(Ev) = CNext /\ phase = "rev" THEN {"C13.block_opt"} ELSE {})
   ELSE
        (* before finalisation: exactly Forward(k*period, (k+1)*period, restart checkpoint -> DISK) *)
        (IF phase = "fwd" /\ A.k # KEF
